@@ -42,8 +42,8 @@ def replay_concrete(hmod, cfg, inputs, wall_s=60, complete=False):
     def _alarm(signum, frame):
         raise _Hang()
 
-    old = signal.signal(signal.SIGALRM, _alarm)
-    signal.setitimer(signal.ITIMER_REAL, wall_s)
+    old = signal.signal(signal.SIGPROF, _alarm)
+    signal.setitimer(signal.ITIMER_PROF, wall_s)  # CPU seconds of this process
     try:
         with shims.ConcreteRNG():
             import warnings
@@ -69,8 +69,8 @@ def replay_concrete(hmod, cfg, inputs, wall_s=60, complete=False):
         res["why"] = "harness exception %s: %s" % (type(ex).__name__, ex)
         res["tb"] = traceback.format_exc()[-1500:]
     finally:
-        signal.setitimer(signal.ITIMER_REAL, 0)
-        signal.signal(signal.SIGALRM, old)
+        signal.setitimer(signal.ITIMER_PROF, 0)
+        signal.signal(signal.SIGPROF, old)
         if was:
             shims.install({k: v[0] for k, v in was.items()})
     res["failures"] = [list(f) for f in conc.failures]
